@@ -128,6 +128,49 @@ Definition c05_rule2_okb_fast (D : Z) (r : c05_rule2) (deg : nat) : bool :=
                        (0 <=? x) && (0 <=? y) && (x + y <=? D)) (fst r)
   && c05_rule2_exactb_fast D r deg.
 
+(* ---- a third way to compute the triangle certificates: rigorous fixed-point enclosures.
+   A pair (u, e) stands for any real r with u <= r * 2^88 <= u + e; products are rounded down by a
+   shift and the error bound is propagated.  All integers stay below ~180 bits, so that the
+   independent checker coqchk (no bytecode VM) re-checks the 25- and 33-point rules in seconds.
+   Soundness (enclosure => the exact statement c05_rule2_ok) is proved in Proofs/C05_tables_proofs.v. *)
+Definition c05_Ebits : Z := 88.
+Definition c05_E : Z := 2 ^ c05_Ebits.
+Definition c05_iv := (Z * Z)%type.
+Definition c05_iv_in (D x : Z) : c05_iv := (Z.shiftl x c05_Ebits / D, 1).
+Definition c05_iv_one : c05_iv := (c05_E, 0).
+Definition c05_iv_mul (p q : c05_iv) : c05_iv :=
+  (Z.shiftr (fst p * fst q) c05_Ebits, 1 + snd p + snd q + snd p * snd q).
+Definition c05_iv_add (p q : c05_iv) : c05_iv := (fst p + fst q, snd p + snd q).
+Definition c05_iv_sum (l : list c05_iv) : c05_iv := fold_right c05_iv_add (0, 0) l.
+Fixpoint c05_iv_pows_from (x acc : c05_iv) (n : nat) : list c05_iv :=
+  match n with
+  | O => [acc]
+  | S k => acc :: c05_iv_pows_from x (c05_iv_mul acc x) k
+  end.
+(* every real in the enclosure is within the tolerance of p / q *)
+Definition c05_iv_closeb (s : c05_iv) (p q : Z) : bool :=
+  (((fst s + snd s) * q - p * c05_E) * c05_tol_den <=? c05_tol_num * (c05_E * q))
+  && ((p * c05_E - fst s * q) * c05_tol_den <=? c05_tol_num * (c05_E * q)).
+
+Definition c05_rule2_exactb_iv (D : Z) (r : c05_rule2) (deg : nat) : bool :=
+  let tabs := map (fun pw => (c05_iv_in D (snd pw),
+                              (c05_iv_pows_from (c05_iv_in D (fst (fst (fst pw)))) c05_iv_one deg,
+                               c05_iv_pows_from (c05_iv_in D (snd (fst (fst pw)))) c05_iv_one deg)))
+                  (combine (fst r) (snd r)) in
+  forallb (fun ab => let a := fst ab in let b := snd ab in
+             c05_iv_closeb (c05_iv_sum (map (fun t => c05_iv_mul (c05_iv_mul (fst t) (nth a (fst (snd t)) (0, 0)))
+                                                                 (nth b (snd (snd t)) (0, 0))) tabs))
+                           (2 * c05_fact a * c05_fact b) (c05_fact (a + b + 2)))
+          (c05_monomials deg).
+
+Definition c05_rule2_okb_iv (D : Z) (r : c05_rule2) (deg : nat) : bool :=
+  (0 <? D)
+  && Nat.eqb (length (fst r)) (length (snd r))
+  && forallb (fun w => (0 <? w) && (w <=? D)) (snd r)
+  && forallb (fun p => let x := fst (fst p) in let y := snd (fst p) in
+                       (0 <=? x) && (0 <=? y) && (x + y <=? D)) (fst r)
+  && c05_rule2_exactb_iv D r deg.
+
 (* nominal degrees: n-point Gauss-Legendre 2n-1; the 9-point table is Gauss-Lobatto (2n-3);
    the triangle rules carry their order *)
 Definition c05_gauss_degree (n : Z) : nat :=
@@ -154,5 +197,10 @@ Definition c05_gauss_okb_fast (n : Z) : bool :=
 Definition c05_tri_okb_fast (n : Z) : bool :=
   match c05_tri_rule n with
   | Some r => c05_rule2_okb_fast c05_den r (c05_tri_degree n)
+  | None => false
+  end.
+Definition c05_tri_okb_iv (n : Z) : bool :=
+  match c05_tri_rule n with
+  | Some r => c05_rule2_okb_iv c05_den r (c05_tri_degree n)
   | None => false
   end.
